@@ -561,7 +561,7 @@ class C13(Base):
 
 # ---------------------------------------------------------------------------
 
-VALID_METERS = [[4, 4], [3, 4], [2, 4], [6, 8], [12, 8], [5, 4], [7, 8], [2, 2], [3, 8], [9, 8], [1, 1], [4, 16], [1, 4], [3, 2], [5, 16], [2, 1]]
+VALID_METERS = [[4, 4], [3, 4], [2, 4], [6, 8], [12, 8], [5, 4], [7, 8], [2, 2], [3, 8], [9, 8], [1, 1], [4, 16], [1, 4], [3, 2], [5, 16], [2, 1], [1, 8], [1, 16], [3, 32], [2, 32], [1, 32], [4, 64]]
 INVALID_METERS = [[4, 0], [4, 3], [4, 5], [4, 6], [3, 12], [4, 7], [2, 100], [4, 0.5], [3, 1.5], [4, 2.5], [4, 0.25]]
 C13_NAMES = ["C", "E", "G", "A", "F#", "Bb", "D", "B#", "Cb"]
 
@@ -612,7 +612,7 @@ def gen_c13(rng, tier):
             if m == [0, 0]:
                 continue
             allow = set(rng.choice([["t3"], ["t5"], ["t7"], ["t3", "t5"], ["dot"], ["dot", "ddot", "t3", "t5", "t7"], []]))
-            syms = score.fill_bar(rng, m[0], m[1], rng.choice([1, 2, 3, 4]), allow, max_entries=40)
+            syms = score.fill_bar(rng, m[0], m[1], rng.choice([1, 2, 3, 4, 5, 6]), allow, max_entries=40)
             for s in syms:
                 ops.append({"op": rng.choice(["place", "place", "rest"]), "bar": b, "content": gen_form(rng), "v": s})
                 if rng.random() < 0.08:
